@@ -26,6 +26,12 @@ fn materialize(root: &Path, w: &Value, git: bool) {
         let c = c.as_str().unwrap();
         if c == "absent" { continue; }
         let d = root.join(p);
+        if p == "lnk/e" {
+            let real = root.parent().unwrap().join("outside").join("e");
+            fs::create_dir_all(&real).unwrap();
+            fs::create_dir_all(d.parent().unwrap()).unwrap();
+            std::os::unix::fs::symlink(&real, &d).unwrap();
+        }
         fs::create_dir_all(&d).unwrap();
         let id = format!("verif/{}", slug(p));
         let component = format!("api = \"0.10\"\n\n[buildpack]\nid = \"{id}\"\nversion = \"1.0.0\"\n\n[[targets]]\nos = \"linux\"\n");
@@ -96,7 +102,8 @@ fn main() {
     let raw = read_tlc_tagged(&input, "WD");
     let results = par_map(&raw, threads(), |_, v| {
         let tmp = tempfile::tempdir_in(&scratch).unwrap();
-        let root = tmp.path().canonicalize().unwrap();
+        let root = tmp.path().canonicalize().unwrap().join("ws");
+        fs::create_dir_all(&root).unwrap();
         materialize(&root, &v["w"], v["git"] == true);
         let mut problems = vec![];
         let rel = |p: &Path| p.strip_prefix(&root).unwrap_or(p).to_string_lossy().to_string();
